@@ -79,7 +79,7 @@ def _segments(draw, maxcp, maxgid, *, maxsegs=7, dense=False, longruns=False, su
         mode = draw(st.sampled_from(modes or ["seq", "seq", "seq", "same", "list", "list", "rev", "stride", "brk"]))
         if maxgid < 2:
             mode = "same"
-        if mode == "brk" and (maxgid < 6 or room < 30):
+        if mode == "brk" and (maxgid < 6 or room < 50):  # at most 3 * 14 + 2 * 3 code points
             mode = "seq"
         if mode == "brk":
             # one run of consecutive code points: stretches of consecutive glyph ids (each long enough to be worth a format 4
